@@ -38,11 +38,16 @@ class Unit:
 
 def sh(cmd, timeout=None, cwd=None, env=None):
     t0 = time.time()
+    p = subprocess.Popen(cmd, stdout=subprocess.PIPE, stderr=subprocess.PIPE, cwd=cwd, env=env, start_new_session=True)
     try:
-        p = subprocess.run(cmd, stdout=subprocess.PIPE, stderr=subprocess.PIPE, timeout=timeout, cwd=cwd, env=env)
-        return p.returncode, p.stdout.decode('utf-8', 'replace'), p.stderr.decode('utf-8', 'replace'), time.time() - t0
-    except subprocess.TimeoutExpired as e:
-        return -9, (e.stdout or b'').decode('utf-8', 'replace'), 'TIMEOUT', time.time() - t0
+        out, err = p.communicate(timeout=timeout)
+        return p.returncode, out.decode('utf-8', 'replace'), err.decode('utf-8', 'replace'), time.time() - t0
+    except subprocess.TimeoutExpired:
+        try: os.killpg(p.pid, 9)     # the whole group: /usr/bin/time AND the solver it started
+        except ProcessLookupError: pass
+        try: p.communicate(timeout=10)
+        except Exception: pass
+        return -9, '', 'TIMEOUT', time.time() - t0
 
 
 class Ctx:
